@@ -70,21 +70,23 @@ _QUOTED_STRING = r'"(?:[^"\\]|\\.)*"'
 _ESCAPED_COMMENT = r"(?:[^()\\]|\\.)*"
 # Matches one element in a comma-separated header list.
 # Group 1: content of a top-level quoted-string (quotes stripped).
-# Group 2: an unquoted element (may contain parameter quoted-strings / comments).
+# Group 2: an unquoted element (may contain parameter quoted-strings / comments),
+# greedy up to the separator so that a run of blanks is scanned once; the caller
+# strips the blanks around it.
 _LIST_ELEMENT_RE = re.compile(
     rf"""
     [ \t]*
     (?:
-      "( (?:[^"\\]|\\.)* )"  # group 1: top-level quoted-string
+      "( (?:[^"\\]|\\.)* )" [ \t]*  # group 1: top-level quoted-string
       | (  # group 2: unquoted element
           (?:
             (?<=[^\s]=) {_QUOTED_STRING}  # parameter quoted value
             | (?<=\s) \( {_ESCAPED_COMMENT} \)  # comment
             | [^,]  # any non-comma character
-          )+?
+          )+
         )
     )
-    [ \t]* (?:,|\Z)
+    (?:,|\Z)
     """,
     re.VERBOSE,
 )
